@@ -40,6 +40,11 @@ CHECKS = {
    technique='bounded exhaustive exploration (CrossHair path enumeration, z3 bookkeeping) of nodes.reduplicate on all DAGs obtained from forests up to the bound by re-using up to two earlier objects',
    text='For every forest up to the bound and every way of inserting one or two earlier objects (leaf, subtree, empty list) at later non-nested positions: ids pairwise distinct afterwards, tokens unchanged, input not modified, already-unique nodes keep their identity, first occurrence of a shared node keeps its id. The choices are enumerated path by path - a bounded exhaustive claim.',
    note='Trusted: CrossHair path bookkeeping. Outside: larger forests, more than two shared insertions; the call sites in the strategies are asserted in the C05 harness.'),
+ 'C17': dict(
+   category='translation_validation', design_ref='DESIGN.md 5 C17',
+   technique='translation validation with z3 (cvc5 cross-check in thorough): each (original, replacement) pair produced by the real mutator code on generated instances is decided as an SMT query over uninterpreted operands',
+   text='For every instance of 22 rewrite families (all constants/notations, indices, extension amounts and widths up to the bound; operands are declared symbols or applications of declared functions, so the solver quantifies over all operand values and all interpretations) the replacement produced by the real filter/mutations/apply_simp code is proved equal to the original (unsat of the negated equality) or a separating assignment is returned; a sort error of the query means the sort is not preserved.',
+   note='Trusted: z3 (and cvc5) semantics of SMT-LIB. Widths/indices/constants are enumerated up to the bound (z3 sorts cannot be symbolic in width); operand shapes are a leaf or one application. n-ary forms outside the documented binary forms are not claimed. Proposals on which a mutator raises are counted and reported under C04.'),
 }
 NOT_APPLICABLE = {}
 ALL = ['C%02d' % i for i in range(1, 19)]
